@@ -5,7 +5,9 @@ from hutil import S, unS, err
 MODEL = "C08"
 PROP_FILES = ["Props/C08.v"]
 RULE = ("exhaustive: all strings up to length 6 (quick) / 7 (thorough) over {a, space, tab, ', \", backslash, -} and up to length 5 "
-        "over {n, #, space, ', \", backslash} (a letter an escape translation would touch, a comment character); seeded random "
+        "over {n, #, space, ', \", backslash} (a letter an escape translation would touch, a comment character) and up to length 4 "
+        "over {NUL, a, space, ', backslash}; NUL, other C0 controls, ESC, DEL, a byte-order mark, a lone surrogate, a non-character "
+        "in 3 % of the random characters; seeded random "
         "token lists (0-4 tokens of 0-5 chars over all printable ASCII, \\n \\t \\r, all 29 whitespace code points, combining / "
         "astral / other non-ASCII characters, quotes and backslash weighted up; a third of the lists drawn from a pool of command "
         "names, option spellings, '--' and quoted values) quoted per token with ' or \" (or left bare when possible) and joined by "
@@ -32,6 +34,10 @@ PRINTABLE = [chr(x) for x in range(33, 127)]
 FOREIGN = ["\u0301", "\u0308", "\u00e9", "\u03bb", "\u4e2d", "\U0001d4d0", "\U0001f600", "\u0663", "\u200b"]
 SPECIAL = ["'", '"', "\\", "-", "=", "n", "t", "r", "#", "0", "f", "v", "$", "`"]
 CONTROL = ["\n", "\t", "\r"]
+# characters that are neither printable nor white space: NUL, other C0 controls, ESC, DEL, a byte-order mark, a lone
+# surrogate, a non-character (audit mutant C08-6 ended the command line at a NUL; no generated string held one)
+ODD = ["\x00", "\x01", "\x07", "\x08", "\x1b", "\x7f", "\ufeff", "\ud800", "\uffff", "\x00"]
+ALPHA3 = ["\x00", "a", " ", "'", "\\"]
 # tokens that mean something to the parser / resolver of _parse_resolve below
 WORDS = ["server", "srv", "add", "list", "--", "-", "-v", "--verbose", "-f", "-fx", "-f=x", "--foo", "--foo=a b", "--foo=", "--bar",
          "-vf", "a b", "it's", 'say "hi"', "", "x", "--no", "-x", "\\n", "#c", "-#"]
@@ -87,8 +93,10 @@ def _rand_token(rng):
             out.append(rng.choice(PRINTABLE))
         elif r < 0.85:
             out.append(rng.choice(FOREIGN))
-        elif r < 0.90:
+        elif r < 0.88:
             out.append(rng.choice(CONTROL))
+        elif r < 0.91:
+            out.append(rng.choice(ODD))
         else:
             out.append(rng.choice(sp))
     return "".join(out)
@@ -138,6 +146,10 @@ def gen(rng, tier, info):
         for t in itertools.product(ALPHA2, repeat=k):
             if "n" in t or "#" in t:
                 cases.append({"k": 0, "s": "".join(t)})
+    for k in range(1, 5):
+        for t in itertools.product(ALPHA3, repeat=k):
+            if "\x00" in t:
+                cases.append({"k": 0, "s": "".join(t)})
     n_ex = len(cases)
     nr = {"quick": 20000, "thorough": 200000, "search": 10000}[tier]
     n_expr = n_words = n_long_tok = 0
@@ -162,7 +174,7 @@ def gen(rng, tier, info):
         cases.append({"k": 0, "s": build(toks, qs, seps, lead, trail), "toks": toks if ex else None})
     # unquoted text: words over printable non-quote characters split at runs of any whitespace (no quoting involved)
     nu = nr // 10
-    plain = [ch for ch in PRINTABLE + FOREIGN if ch not in "'\"\\"]
+    plain = [ch for ch in PRINTABLE + FOREIGN + ODD if ch not in "'\"\\"]
     for _ in range(nu):
         nt = rng.randint(2, 5)
         toks = ["".join(rng.choice(plain) for _ in range(rng.randint(1, 4))) for _ in range(nt)]
